@@ -94,7 +94,7 @@ func replayable(fn *ssa.Function) bool {
 
 // modelCase asks the portfolio for a model of the failing VC and extracts the inputs.
 func (x *Exec) modelCase(o *Obligation, depth int, timeout time.Duration) (*ReplayCase, string) {
-	q := x.buildQueryM(o, depth, 3, true)
+	q := x.buildQueryM(o, depth, 6, true)
 	const maxElems = 40
 	type seqInfo struct {
 		name  string
